@@ -307,12 +307,14 @@ class Simulator:
         if len(self._errors) > 0:
             return self
 
-        if self._time_shift is not None:
-            t_end -= self._time_shift
-
         prior_t_end: float = (
             0.0 if (variables := self.variables) is None else variables[-1].index[-1]
         )
+        # The integrator restarts at 0 after a variable update, so compare in its time
+        if self._time_shift is not None:
+            t_end -= self._time_shift
+            prior_t_end -= self._time_shift
+
         if t_end <= prior_t_end:
             msg = "End time point has to be larger than previous end time point"
             raise ValueError(msg)
@@ -345,13 +347,15 @@ class Simulator:
 
         time_points = np.array(time_points, dtype=float)
 
-        if self._time_shift is not None:
-            time_points -= self._time_shift
-
         # Check if end is actually larger
         prior_t_end: float = (
             0.0 if (variables := self.variables) is None else variables[-1].index[-1]
         )
+        # The integrator restarts at 0 after a variable update, so compare in its time
+        if self._time_shift is not None:
+            time_points -= self._time_shift
+            prior_t_end -= self._time_shift
+
         if time_points[-1] <= prior_t_end:
             msg = "End time point has to be larger than previous end time point"
             raise ValueError(msg)
